@@ -67,12 +67,22 @@ def CreatedRight (ctx : Ctx) (pre : Before) (post : Obs) : Prop :=
 /-- "exactly one new ObjectSet is created" (upper half; `Progress` is the lower half). -/
 def OnePerTemplate (ctx : Ctx) (post : Obs) : Prop := ctx.epochCreates + (succ post).length ≤ 1
 
+/-- `conf` is an OLDER revision of the deployment: it reports a revision and another ObjectSet of the
+deployment reports a higher one.  A clash with such an ObjectSet is a roll-back to an earlier
+template, not the create-not-yet-visible window (the ObjectSet "just created" is never older than
+an ObjectSet the deployment already lists). -/
+def OlderRevision (pre : Before) (conf : OSet) : Prop :=
+  conf.rev ≠ 0 ∧ ∃ m ∈ mems pre.sets, conf.rev < m.rev
+
 /-- "A name clash with an ObjectSet that is archived or has a different spec is never resolved by
-reusing it: the collision counter is bumped". -/
+reusing it: the collision counter is bumped" – and neither is a clash with an ObjectSet that is
+not the newest revision, whatever its spec ("so rolling back to an earlier template yields a new
+revision": the ObjectSet of the earlier template may still be live, with an equal spec). -/
 def ClashNeverReused (ctx : Ctx) (pre : Before) (post : Obs) : Prop :=
   ∀ r ∈ post.reqs, r.outcome = .exists →
     ∃ conf ∈ pre.sets, conf.name = r.obj.name ∧
-      ((conf.archived = true ∨ conf.spec ≠ ctx.template) → post.res = "ok" → post.cc = pre.cc + 1)
+      ((conf.archived = true ∨ conf.spec ≠ ctx.template ∨ OlderRevision pre conf) →
+        post.res = "ok" → post.cc = pre.cc + 1)
 
 /-- The hash / objectSet / newRevision part of a pass of the ObjectDeployment controller leaves every
 existing ObjectSet as it is (nothing is adopted, re-labelled, un-archived or re-specified) and adds
@@ -96,6 +106,26 @@ def Progress (ctx : Ctx) (pre : Before) (post : Obs) : Prop :=
 /-- Environment steps and ObjectSet-controller passes create nothing and leave the counter alone. -/
 def Quiet (pre : Before) (post : Obs) : Prop := post.reqs = [] ∧ post.cc = pre.cc
 
+/-- The one way a completed pass may leave a needed ObjectSet uncreated without bumping the counter:
+the create clashed with a live ObjectSet of equal spec that carries this deployment's controller
+reference but NOT its selector labels, so the deployment never lists it (labels stripped by a third
+party; outside the environment assumption "foreign ObjectSets do not carry the deployment's
+identity", reported by the check's notes).  The code takes it for its own, slowly cached create. -/
+def OwnedUnlabelledClash (ctx : Ctx) (pre : Before) (post : Obs) : Prop :=
+  ∃ r ∈ post.reqs, r.outcome = .exists ∧
+    ∃ conf ∈ pre.sets, conf.name = r.obj.name ∧ conf.member = false ∧ conf.owned = true ∧
+      conf.archived = false ∧ conf.spec = ctx.template
+
+/-- Liveness per pass ("exactly one new ObjectSet is created … the collision counter is bumped and a
+fresh ObjectSet is created"): a pass that completes (any cache view) for an unpaused deployment with
+phases, all of whose ObjectSets report a revision and whose newest ObjectSet does not carry the
+template hash, either creates exactly one ObjectSet (`CreatedRight`: spec = template, previous =
+all existing) or bumps the collision counter – it may not do nothing. -/
+def PassActs (ctx : Ctx) (pre : Before) (post : Obs) : Prop :=
+  ctx.paused = false → ctx.template ≠ 0 → post.res = "ok" → (∀ m ∈ mems pre.sets, m.rev ≠ 0) →
+    ∀ tH, post.th = some tH → (∀ m ∈ mems pre.sets, (∀ m' ∈ mems pre.sets, m'.rev ≤ m.rev) → m.hash ≠ tH) →
+      (succ post).length = 1 ∨ post.cc = pre.cc + 1 ∨ OwnedUnlabelledClash ctx pre post
+
 instance (post : Obs) : Decidable (RevisionsUnique post) := by unfold RevisionsUnique; infer_instance
 instance (pre : Before) (post : Obs) : Decidable (SetOnce pre post) := by unfold SetOnce; infer_instance
 instance (pre : Before) (post : Obs) : Decidable (NewGreater pre post) := by unfold NewGreater; infer_instance
@@ -104,8 +134,12 @@ instance (ctx : Ctx) (pre : Before) (post : Obs) : Decidable (CreateOnlyWhen ctx
 instance (ctx : Ctx) (pre : Before) (post : Obs) : Decidable (CreatedRight ctx pre post) := by
   unfold CreatedRight; infer_instance
 instance (ctx : Ctx) (post : Obs) : Decidable (OnePerTemplate ctx post) := by unfold OnePerTemplate; infer_instance
+instance (pre : Before) (conf : OSet) : Decidable (OlderRevision pre conf) := by
+  unfold OlderRevision; infer_instance
 instance (ctx : Ctx) (pre : Before) (post : Obs) : Decidable (ClashNeverReused ctx pre post) := by
   unfold ClashNeverReused; infer_instance
+instance (ctx : Ctx) (pre : Before) (post : Obs) : Decidable (OwnedUnlabelledClash ctx pre post) := by
+  unfold OwnedUnlabelledClash; infer_instance
 instance (pre : Before) (post : Obs) : Decidable (Untouched pre post) := by unfold Untouched; infer_instance
 instance (pre : Before) (post : Obs) : Decidable (CounterMonotone pre post) := by unfold CounterMonotone; infer_instance
 instance (pre : Before) (post : Obs) : Decidable (Quiet pre post) := by unfold Quiet; infer_instance
@@ -117,6 +151,15 @@ def progressB (ctx : Ctx) (pre : Before) (post : Obs) : Bool :=
   | some tH =>
     !(ctx.paused = false ∧ ctx.template ≠ 0 ∧ post.res = "ok" ∧ (∀ m ∈ mems pre.sets, m.rev ≠ 0) ∧
       (∀ m ∈ mems pre.sets, (∀ m' ∈ mems pre.sets, m'.rev ≤ m.rev) → m.hash ≠ tH)) || !post.reqs.isEmpty
+
+/-- `PassActs` quantifies over `tH`; it is decided on the one value `post.th` can hold. -/
+def passActsB (ctx : Ctx) (pre : Before) (post : Obs) : Bool :=
+  match post.th with
+  | none => true
+  | some tH =>
+    !(ctx.paused = false ∧ ctx.template ≠ 0 ∧ post.res = "ok" ∧ (∀ m ∈ mems pre.sets, m.rev ≠ 0) ∧
+      (∀ m ∈ mems pre.sets, (∀ m' ∈ mems pre.sets, m'.rev ≤ m.rev) → m.hash ≠ tH)) ||
+    decide ((succ post).length = 1 ∨ post.cc = pre.cc + 1 ∨ OwnedUnlabelledClash ctx pre post)
 
 /-- Is `op` an undisturbed ObjectDeployment pass? -/
 def undisturbed : Option Op → Bool
@@ -140,6 +183,7 @@ def stepOK (ctx : Ctx) (pre : Before) (op : Option Op) (post : Obs) : Option Str
   else if isOd op ∧ ¬ Untouched pre post then some "objectset-modified"
   else if ¬ isOd op ∧ ¬ Quiet pre post then some "create-outside-pass"
   else if undisturbed op ∧ progressB ctx pre post = false then some "no-create"
+  else if isOd op ∧ passActsB ctx pre post = false then some "pass-did-nothing"
   else none
 
 end Pko.Model.DeploymentSpec
